@@ -2,7 +2,6 @@
    Statements only; proofs in Chrono*.v.  Model: ChronoModel.v at /repo beee810.
 
    Open input classes (kept as _refuted / _outside pairs or Examples):
-     K45  general-ratio branch of SafeDurationCast (unreachable with the standard units)
      K41 / K42  lenient acceptance outside the documented grammar (field widths, text after 'Z', repeated or
           reordered duration components, text after white space)
      K48  8-bit representations: std::chrono::round / floor wrap
@@ -44,27 +43,30 @@ Print Assumptions T_C15_fraction_example.
         or out_of_range and no fitting exact value exists; nothing else (no UB, no other error).
         cast_dom from to c :=  representations int8/int32/int64/uint64, positive periods with cross products
         up to 2^62, c representable in the source.
-        Full strength:  forall from to c, cast_dom from to c -> cast_spec from to c.
-        Still FALSE in the class  general_ratio from to = true  (K45: reduced ratio with num <> 1 and
-        den <> 1 — not reachable with the standard units): ---- *)
-Theorem T_C15_safe_cast_refuted :
-  exists from to c, cast_dom from to c /\ general_ratio from to = true /\ ~ cast_spec from to c.
-Proof. exact c15_safe_cast_refuted. Qed.
-Print Assumptions T_C15_safe_cast_refuted.
+        Full strength since the repair of K45 in /repo (the general-ratio branch — reduced ratio with num >= 2 and
+        den >= 2, not reachable with the standard units — now divides first: exact only for multiples of den, then
+        the quotient times num with the range checks of the other branches): exact for every pair of
+        representations and every ratio, incl. negative counts into unsigned targets and uint64 counts above
+        INT64_MAX (K43 / K44, repaired by 30f5d3e). ---- *)
+Theorem T_C15_safe_cast : forall from to c, cast_dom from to c -> cast_spec from to c.
+Proof. exact c15_safe_cast. Qed.
+Print Assumptions T_C15_safe_cast.
 
-(* the same domain, outside the class: exact for every pair of representations, incl. negative counts into
-   unsigned targets and uint64 counts above INT64_MAX (K43 / K44, repaired by 30f5d3e) *)
-Theorem T_C15_safe_cast_outside : forall from to c,
-  cast_dom from to c -> general_ratio from to = false -> cast_spec from to c.
-Proof. exact c15_safe_cast_outside. Qed.
-Print Assumptions T_C15_safe_cast_outside.
+(* regression, K45 (repaired): 1 tick of 2/3 s into seconds is out_of_range (was 0), 3 ticks are 2 s; the large uint64
+   count whose check overflowed is converted; a negative count into an unsigned target is refused *)
+Example T_C15_K45_repaired :
+  safe_cast (mkD I64 2 3) (mkD I64 1 1) 1 = Err OutOfRange /\ safe_cast (mkD I64 2 3) (mkD I64 1 1) 3 = Ok 2 /\
+  safe_cast (mkD U64 1 1) (mkD I64 2 3) 6148914691236517202 = Ok 9223372036854775803 /\
+  safe_cast (mkD I64 2 3) (mkD U64 1 1) (-3) = Err OutOfRange.
+Proof. exact r_K45. Qed.
+Print Assumptions T_C15_K45_repaired.
 
-(* the class predicate is the negation of "num = 1 or den = 1" *)
+(* simple_ratiob decides "num = 1 or den = 1" (the three branches other than the general one) *)
 Theorem T_C15_safe_cast_class : forall from to, simple_ratiob from to = true <-> simple_ratio from to.
 Proof. exact simple_ratiob_spec. Qed.
 Print Assumptions T_C15_safe_cast_class.
 
-(* every pair of the units ns, us, ms, s, min, h, days, weeks lies in the domain and outside the class *)
+(* every pair of the units ns, us, ms, s, min, h, days, weeks lies in the domain and has a simple ratio *)
 Theorem T_C15_safe_cast_units : forall r1 r2 u w c, rep4 r1 -> rep4 r2 -> fits r1 c = true ->
   cast_dom (udty r1 u) (udty r2 w) c /\ general_ratio (udty r1 u) (udty r2 w) = false /\
   cast_spec (udty r1 u) (udty r2 w) c.
